@@ -492,6 +492,7 @@ class Execution:
         abnormal = False
         died = False
         stdout_eof = False
+        sent_signal = False
         self.announced = set()
 
         def run_ids():
@@ -591,7 +592,7 @@ class Execution:
                 pu[self.by_id[r]["pool"]] = pu.get(self.by_id[r]["pool"], 0) + 1
             self.events.append({"e": "Start", "s": sid, "t": self.now_stamp(), "read": read, "rsp": rspseen, "dirs": dirs, "run": run_ids(),
                                 "pools": [{"p": p_, "n": n_} for p_, n_ in sorted(pu.items())],
-                                "fifo": self.fifo_count(jf) if tok >= 0 else -1,
+                                "fifo": -1,     # the pool cannot be counted while ninja runs without racing with it; it is counted at Exit
                                 "console": s["pool"] == "console", "cmd": cmd_text(s, self.vcmd, self.ctl) + (" --trap 60 " + " ".join(s["outs"]) if s.get("trap") else ""),
                                 "desc": "E%d%s" % (s["id"], (" " + DECOR[s["decor"]]) if s.get("decor") else ""), "outs": "".join(o + " " for o in s["outs"])})
             for er in step.get("editrun", []):
@@ -646,6 +647,12 @@ class Execution:
                 if ev["h"].startswith("Fin:") and sid in pending_done:
                     on_done(sid)
                 self.events.append({"e": "H", "h": ev["h"], "s": sid, "d": ev.get("d", "")})
+                if ev["h"] == "CleanupBegin" and not sent_signal:
+                    # ninja abandons the build without having been signalled (a command ended with status 130, a load error in
+                    # mid-build): it waits for the commands still running without signalling them, so they end on their own
+                    for r in list(running.keys()):
+                        if r not in pending_done:
+                            send_script(r)
                 if ev["h"] == "StartEdge" and sid and not step.get("dry"):
                     # ninja spawns the command right after this hook event: wait for the command's own start
                     # message (event based, no timing assumption; the watchdog only catches a command that never starts)
@@ -655,6 +662,7 @@ class Execution:
                     waits += 1
                     if step.get("kill", -1) == waits:
                         # the ninja process dies (SIGKILL); its commands live on: each either finishes on its own or dies too
+                        sent_signal = True
                         proc.kill()
                         proc.wait()
                         orphans = []
@@ -686,6 +694,7 @@ class Execution:
                     elif intr == waits:
                         self.events.append({"e": "Interrupt", "run": run_ids()})
                         interrupted = True
+                        sent_signal = True
                         proc.send_signal(getattr(signal, "SIG" + sig))
                     elif running and not pending_done and step.get("burst") and len(running) > 1:
                         # every running command completes before ninja looks again: ninja is stopped meanwhile, so it
@@ -700,12 +709,8 @@ class Execution:
                         idx = self.ch.choose(len(ids)) if len(ids) > 1 else 0
                         send_script(ids[idx])
                         if fails.get(ids[idx], {}).get("code") == 130:
-                            # ninja takes a command that ends with status 130 for a user interrupt: it stops the build and waits for
-                            # the commands still running (it signals them only if it received a signal itself), so they end on their own
+                            # ninja takes a command that ends with status 130 for a user interrupt and stops the build
                             interrupted = True
-                            for r in list(running.keys()):
-                                if r != ids[idx]:
-                                    send_script(r)
             if proc.poll() is not None:
                 # drain
                 try:
